@@ -79,5 +79,41 @@ PROPS['C10'] = {
               'decoders themselves is C11',
 }
 
+PROPS['C03'] = {
+    'module': 'Yabgp.Props.C03',
+    'theorems': ['Yabgp.C03_contract_holds', 'Yabgp.timInv_step', 'Yabgp.C01_keepalive_timer_expires',
+                 'Yabgp.C01_hold_timer_expires', 'Yabgp.C01_keepalive_msg', 'Yabgp.C01_update_msg',
+                 'Yabgp.C01_open_accepted', 'Yabgp.C01_tcp_connected'],
+    'genagree': SESSION_GEN,
+    'suites': ['session'],
+    'cannot': SESSION_CANNOT,
+    'level_text': 'Lean 4 invariant proved by induction over ALL event sequences from boot (any configuration, any peer '
+                  'schedule, any same-instant order of expiry and arrival, any number of sessions): in OpenConfirm / '
+                  'Established with H > 0 a KEEPALIVE is due within H/3 and the hold deadline within H; with H = 0 neither '
+                  'timer exists; plus per-event theorems for expiry and restart. Tied to /repo by the session '
+                  'correspondence, which compares the pending reactor call times after every event.',
+}
+
+PROPS['C05'] = {
+    'module': 'Yabgp.Props.C05',
+    'theorems': ['Yabgp.C05_open_fields', 'Yabgp.C05_only_configured_capabilities', 'Yabgp.C05_asn4_iff_both',
+                 'Yabgp.C05_new_connection_decodes_2octet', 'Yabgp.KF_C05_capability_leak', 'Yabgp.C01_open_accepted',
+                 'Yabgp.C01_open_rejected', 'Yabgp.C14_open_roundtrip', 'Yabgp.C14_open_true_as'],
+    'genagree': SESSION_GEN + ['Yabgp.GenAgree.open_tables'],
+    'suites': ['session', 'openmsg'],
+    'cannot': SESSION_CANNOT + '; "nothing leaks" is proved for version, AS, hold time, identifier and for the capability set '
+              'only as "subset of the configured set" - the capability leak is a recorded known finding',
+}
+
+PROPS['C13'] = {
+    'module': 'Yabgp.Props.C13',
+    'theorems': ['Yabgp.C13_stop_state', 'Yabgp.C13_quiet_step', 'Yabgp.C13_quiet', 'Yabgp.C13_start',
+                 'Yabgp.C01_manual_stop', 'Yabgp.C01_manual_start_ignored', 'Yabgp.KF_C13_pending_attempt_adopted'],
+    'genagree': SESSION_GEN,
+    'suites': ['session'],
+    'cannot': SESSION_CANNOT + '; the quiet period is proved from the situation "no attempt pending and no connection open" - a '
+              'pending attempt at stop time is the recorded known finding',
+}
+
 # properties not claimed yet, with the reason that goes into MANIFEST.not_applicable
 NOT_YET = {}
